@@ -111,16 +111,23 @@ func (rr Regions) Resize(mod Modifier) Region {
 		upper += ret.Len()
 	}
 
+	// Walk the segments until the one containing each bound is found; once
+	// found, later (shorter) residuals must not move the bound any further.
 	left, right := 0, 0
+	lfound, rfound := false, false
 	for k := 0; k+1 < len(rr); k++ {
 		n := rr[k].Len()
-		if n < lower {
+		if !lfound && n < lower {
 			left = k + 1
 			lower -= n
+		} else {
+			lfound = true
 		}
-		if n < upper {
+		if !rfound && n < upper {
 			right = k + 1
 			upper -= n
+		} else {
+			rfound = true
 		}
 	}
 
